@@ -239,6 +239,13 @@ func TCP(sp, dp int, payload []byte) []byte {
 	return cat(h, payload)
 }
 
+// TCPOpt: TCP header with nopt 32-bit words of options (data offset 5+nopt)
+func TCPOpt(sp, dp int, nopt int, payload []byte) []byte {
+	h := TCP(sp, dp, nil)
+	h[12] = byte(5+nopt) << 4
+	return cat(h, make([]byte, 4*nopt), payload)
+}
+
 func ICMP(typ, code byte, id, seq int, data []byte) []byte {
 	return cat([]byte{typ, code, 0, 0}, be16(id), be16(seq), data)
 }
@@ -376,6 +383,9 @@ func (g *G) L4(proto byte, v6 bool) (seg []byte, class string) {
 		sp, dp := g.Port(), g.Port()
 		return UDP(sp, dp, g.Data(40)), "udp"
 	case 6:
+		if g.R.Chance(30) {
+			return TCPOpt(g.Port(), g.Port(), g.R.Intn(11), g.Data(40)), "tcp"
+		}
 		return TCP(g.Port(), g.Port(), g.Data(40)), "tcp"
 	case 1, 58:
 		typ := []byte{0, 8, 3, 129, 128, 133, 134, 135, 136, 137, 11}[g.R.Intn(11)]
@@ -689,6 +699,20 @@ func Generate(g *G, thorough bool, e Emit) {
 					}
 				}
 				e(f, g.Spare(n, r.Intn(3)), "b.fullsize")
+			}
+		}
+	}
+	// 2k. TCP data offset: every value 0..15 x segment lengths around 20 and around 4*offset, over IPv4 and IPv6
+	for rep := 0; rep < scale; rep++ {
+		for doff := 0; doff < 16; doff++ {
+			for _, n := range []int{20, 21, 4*doff - 1, 4 * doff, 4*doff + 1, 60, 61} {
+				if n < 20 {
+					continue
+				}
+				seg := TCP(g.Port(), g.Port(), r.Bytes(64))[:n]
+				seg[12] = byte(doff<<4) | seg[12]&0x0f
+				g.caps(e, Ether(g.DstMAC(), MACClient1, 0x0800, IP4(5, 20+n, 6, g.IP4(), g.IP4(), nil, seg)), "b.tcpdoff4")
+				g.caps(e, Ether(g.DstMAC(), MACClient1, 0x86dd, IP6(n, 6, g.IP6(), g.IP6(), seg)), "b.tcpdoff6")
 			}
 		}
 	}
